@@ -9,6 +9,9 @@ package ext
 //@ macro bsFixed(rs) = rs.contentLength >= 0 && rs.prefetchedBytes != nil && rs.reader != nil && 0 <= rs.offset && rs.offset <= rs.contentLength && len(rs.prefetchedBytes.s) <= rs.contentLength && 0 <= rs.prefetchedBytes.i && rs.prefetchedBytes.i == ite(rs.offset <= len(rs.prefetchedBytes.s), rs.offset, len(rs.prefetchedBytes.s))
 
 // Read (fixed length): never takes more bytes from the wire than the body still has.
+// rdTrailerOK: the trailer section behind the last chunk was read without error. The end-of-body mark of a
+// chunked stream (chunkEOF, which makes skipRest a no-op) may only be set then.
+//@ ghost var rdTrailerOK bool
 //@ func bodyStream.Read(rs, p) n, err
 //@   props C14, C11
 //@   nosafety
@@ -20,9 +23,12 @@ package ext
 //@   requires rs.reader != nil
 //@   requires rs.chunkLeft >= 0
 //@   requires rs.contentLength == -1 ==> rs.trailer != nil
-//@   modifies *, rs.reader.pos, rs.reader.avail, rs.reader.failed
+//@   modifies *, rs.reader.pos, rs.reader.avail, rs.reader.failed, rdTrailerOK
 //@   ensures old(rs.contentLength) == -1 ==> rs.chunkLeft >= 0
 //@   assert @C14 before ParseChunkSize: rs.chunkLeft == 0
+//@   ghostset-at-entry rdTrailerOK = false
+//@   ghostset after ReadTrailer: rdTrailerOK = (result == nil)
+//@   top-ensures old(rs.contentLength) == -1 && !old(rs.chunkEOF) && rs.chunkEOF ==> rdTrailerOK
 //@   top-ensures old(rs.contentLength) >= 0 ==> rs.reader.pos >= old(rs.reader.pos) && rs.reader.pos - old(rs.reader.pos) <= old(rs.contentLength - rs.offset)
 //@   ensures old(rs.contentLength) >= 0 ==> 0 <= n && n <= len(p)
 
